@@ -120,8 +120,11 @@ static uint8_t loop_stop(m_ctx_t *c) {
     
     poll_clear(&c->ppriv);
 
-    /* Destroy thpool eventually waiting on currently running tasks */
-    m_thpool_free(&c->thpool, false);
+    /*
+     * Destroy thpool waiting on every task it accepted: a task that is dropped
+     * would never notify its source, that would stay registered forever without firing.
+     */
+    m_thpool_free(&c->thpool, true);
 
     c->ppriv.max_events = 0;
     c->stats.looping_start_time = 0;
@@ -304,6 +307,10 @@ static int recv_events(m_ctx_t *c, int timeout) {
                 bool expired = false;
                 if (p && p->flags & M_SRC_ONESHOT) {
                     if (p->type != M_SRC_TYPE_PS) {
+                        if (p->type == M_SRC_TYPE_TASK) {
+                            /* Its thread notified us, let it be done with the source before we drop it */
+                            wait_task(p);
+                        }
                         /* Stop polling on it right now: its memory outlives it, as the event references it */
                         poll_set_new_evt(&c->ppriv, p, RM);
                         m_bst_remove(mod->srcs[p->type], p);
